@@ -103,14 +103,17 @@ def rule_consumer_guards(P, R, rid):
             'XML-RPC: a result obtained across a new CHECKING entry passes the is_checking() guard')
     from . import shared
     shared.handshake_order(P, R, rid)
+    from .c12 import rule_snapshot_when_authorized
+    rule_snapshot_when_authorized(P, R, rid)
     shared.discovery_eligibility(P, R, rid)
     u = P.unit('Context.on_identification_event')
     fm = factmap(u)
     idc = [c for c in own_nodes(u.node) if isinstance(c, ast.Call) and call_text(c) == 'self.mapper.identify']
-    ok = len(idc) == 1 and fm.has(idc[0], 'status.is_checking(timestamp)', True)
-    sdef = [a for a in own_nodes(u.node) if isinstance(a, (ast.Assign, ast.AnnAssign)) and
-            ast.unparse(a.targets[0] if isinstance(a, ast.Assign) else a.target) == 'status']
-    ok = ok and len(sdef) == 1 and ast.unparse(sdef[0].value) == 'self.instances[identifier]'
+    # (closed form: the status is the entry of the sender, looked up with [] or .get(), and the date that of the event)
+    fcl = {(f[0], f[1]) for f in fm.closed(idc[0])} if len(idc) == 1 else set()
+    ok = len(idc) == 1 and bool(fcl & {
+        ("self.instances[event['identifier']].is_checking(event['now_monotonic'])", True),
+        ("self.instances.get(event['identifier']).is_checking(event['now_monotonic'])", True)})
     R.check(rid, ok, 'an identification is only applied to a peer still CHECKING', 'accept|on_identification_event',
             u.loc(), 'on_identification_event calls mapper.identify without the fact is_checking(timestamp)')
     ic = P.unit('SupvisorsInstanceStatus.is_checking')
